@@ -236,6 +236,37 @@ def run(ctx):
     # ---- the same statement on dense families of versions (one edit apart, equal under another spelling): harness/dense.py
     dense_ev, dense_per = dense.run(ctx, "C13", r, lambda what, **kw: violations.append(dict(kind="counterexample", stage="search", what=what, **kw)))
     evals += dense_ev
+    # ---- a list of native items in any order: maven / nuget bracket items, deb / rpm relations
+    for rname, mk in (("MavenVersionRange", lambda a, b, c, d, e: [f"[{a},{b})", f"[{c},{d}]", f"[{e}]"]),
+                      ("NugetVersionRange", lambda a, b, c, d, e: [f"[{a},{b})", f"[{c},{d}]", f"[{e}]"]),
+                      ("DebianVersionRange", lambda a, b, c, d, e: [f">= {a}", f"<< {b}", f"= {e}"]),
+                      ("RpmVersionRange", lambda a, b, c, d, e: [f">= {a}", f"< {b}", f"= {e}"])):
+        rcls = getattr(vr, rname)
+        sch = vers.Scheme(r, rcls.version_class, 12)
+        if not sch.ok():
+            continue
+        for _ in range(6 if ctx.tier == "quick" else 80):
+            pos = sorted(r.sample(range(12), 5))
+            txt = [sch.lad[p].string for p in pos]
+            if any(ch in t for t in txt for ch in "[](), "):
+                continue
+            items = mk(*txt)
+            try:
+                base = rcls.from_natives(list(items))
+            except Exception:  # noqa
+                continue            # the scheme's own parser refuses the ascending list: not this check's business
+            for _k in range(3):
+                perm = list(items)
+                r.shuffle(perm)
+                evals += 1
+                try:
+                    got = rcls.from_natives(perm)
+                    same = got == base and str(got) == str(base)
+                except Exception as e:  # noqa
+                    got, same = repr(e), False
+                if not same:
+                    viol(f"{rname}: from_natives({perm}) gives {got}, from_natives({items}) gives {base}", inputs=dict(range_class=rname, natives=perm, ascending=items))
+                    break
     if not violations and (diffs or not proofs["ok"]):
         what = ("theorems of Props/C13.v no longer check: " + str(proofs.get("error"))[-400:]) if not proofs["ok"] else \
             ("model and implementation differ: " + str(diffs[0]))
